@@ -990,7 +990,7 @@ Lemma py_step_fine sf sc o sc' r : fine2 sf sc -> inv ts (fst sc) -> inv ts (snd
 Proof.
   destruct sf as [cf of], sc as [cc oc]. intros [Fc Fo] Ic Io H. simpl in Fc, Fo, Ic, Io.
   unfold py_step, py_step_fuel in *. pose proof (seek_fuel_gt ts) as HF. unfold T in *.
-  destruct o as [| | | | |x|i| | |x|i].
+  destruct o as [| | | | |x|i| | |x|i]; rewrite ?tree_copy_id in *.
   - inv_bind H as a Ha. destruct a as [t r0]. injection H as <- <-. unfold tree_first in *.
     assert (Icl : inv ts (tree_clear core ts cc)) by (split; [apply (tree_clear_ok ts V cc (proj1 Ic))|apply (ne_ok_clear ts V)]).
     destruct (tree_next_fine _ _ _ _ Icl (clear_fine cf cc Ic Fc) Ha) as [tf' [E F']].
